@@ -48,6 +48,8 @@ type Scenario struct {
 	Setup    []Op        `json:"setup,omitempty"`
 	Variants []Variant   `json:"variants,omitempty"`
 	Infl     *InflCase   `json:"infl,omitempty"`
+	// UniAll: report every package of the closure (std included), not only the module's.
+	UniAll bool `json:"uni_all,omitempty"`
 	// ExternalRoot: load an existing module read-only instead of a synthetic one (C13 on /repo's closure).
 	ExternalRoot string `json:"external_root,omitempty"`
 	Note         string `json:"note,omitempty"`
@@ -84,6 +86,8 @@ var declPool = []poolEntry{
 	{Text: "\nfunc (v $T) Val$U() string {\n\treturn \"v\"\n}\n", Method: true},
 	// whitespace only gofumpt (not gofmt) normalises: the file is canonical only if gofumpt really ran
 	{Text: "\nfunc Loose$U() int {\n\n\tx := 1\n\n\treturn x\n\n}\n"},
+	// gofumpt's version-gated rule: legacy octal literals become 0o... when the module's go version allows it
+	{Text: "\nconst Perm$U = 0644\n"},
 	{Text: "\nvar Comp$U = []int{\n\t1,\n\t2,\n}\n\nfunc After$U() {}\n"},
 	{Text: "\ntype Nt$U struct {\n\tA int `json:\"a\"`\n}\n", DeclType: true},
 	{Text: "\nvar Ref$U ", Ref: "container/list.List"},
